@@ -249,11 +249,31 @@ static const std::string& symbolize(const std::string& pc) {
 	return cache.emplace(pc, buf).first->second;
 }
 
+// "ret<T> ns::f<U>(args) const"  ->  "ns::f"
+static std::string simplify_frame(const std::string& fr) {
+	static const std::regex ops("operator(\\(\\)|<<=?|>>=?|<=|>=|<|>|->\\*?)");
+	std::string t = std::regex_replace(fr, ops, "operator#");
+	std::string q;
+	int depth = 0;
+	for (char c : t) {
+		if (c == '<') { ++depth; continue; }
+		if (c == '>') { if (depth > 0) --depth; continue; }
+		if (depth > 0) continue;
+		if (c == '(') break;
+		q += c;
+	}
+	while (!q.empty() && q.back() == ' ') q.pop_back();
+	size_t sp = q.rfind(' ');
+	if (sp != std::string::npos) q = q.substr(sp + 1);
+	return q;
+}
+
 // which destructor let the exception out: walking up from the throw, the first frame that is a destructor (X::~X)
 // or the reset of the std::optional that owns a scope object; else the innermost library function
 static std::string attribute_terminate(const std::string& res) {
 	auto pcs = vh::split(res);
 	std::string who = "?", first_lib;
+	int nlib = 0;
 	bool below_throw = true;
 	bool has_throw = false;
 	std::vector<std::string> frames;
@@ -279,9 +299,15 @@ static std::string attribute_terminate(const std::string& res) {
 			std::smatch m;
 			if (std::regex_search(fr, m, re)) { who = "~" + m[1].str(); break; }
 		}
-		if (first_lib.empty()) {
-			size_t b = fr.find("BitSerializer::");
-			if (b != std::string::npos) { size_t e = fr.find_first_of("(<", b); first_lib = "in " + fr.substr(b, std::min<size_t>(e == std::string::npos ? 80 : e - b, 80)); }
+		// no destructor yet: remember the chain of library functions (last two name components each, innermost first)
+		if (nlib < 6) {
+			const std::string q = simplify_frame(fr);
+			if (q.rfind("BitSerializer::", 0) == 0) {
+				size_t c2 = q.rfind("::");
+				size_t c1 = c2 == std::string::npos || c2 == 0 ? std::string::npos : q.rfind("::", c2 - 1);
+				std::string shortq = c1 == std::string::npos ? q : q.substr(c1 + 2);
+				if (first_lib.find(shortq) == std::string::npos) { first_lib += (nlib ? " <- " : "in ") + shortq; ++nlib; }
+			}
 		}
 	}
 	if (who == "?" && !first_lib.empty()) who = first_lib;
@@ -303,7 +329,7 @@ static std::string in_child(const std::function<std::string()>& op) {
 		g_result_fd = rp[1];
 		if (efd >= 0) dup2(efd, 2);
 		std::set_terminate(on_terminate);
-		alarm(20);
+		alarm(6);
 		std::string r = op();
 		write_all(g_result_fd, r);
 		close(g_result_fd);
